@@ -1,5 +1,6 @@
 import GoaVerif.Model.Validation
 import GoaVerif.Generated.FactsValCode
+import GoaVerif.Lemmas.ValCode
 /-!
 # C04 — validations gate user code: property theorems over the specification
 `GoaVerif.Model.Validation` is the *specification* of the design's constraints, tied to the
@@ -9,8 +10,11 @@ single-keyword checks of the code generator to the specification by proof: the c
 `codegen.AttributeValidationCode` emits are extracted from /repo in every run (tie T2,
 `Generated/FactsValCode.lean`: the generator is run on one attribute per kind x keyword x pointer cell and
 its output parsed) and proved to fire exactly when the specification says the rule is broken, for every
-value and bound. The recursive assembly of the checks (objects, arrays, maps, user types) is tied by
-execution only.
+value and bound. The recursive ASSEMBLY of the checks (objects, arrays, maps, nil guards, required
+checks: codegen/validation.go) is modelled by `ValCode.compile`, tied to the real generator by tie T3
+(`rtvalcode` runs `codegen.ValidationCode` on random attribute trees and prints the parsed Go in the form
+`drv_valid compile` prints the model's code) and proved below to gate exactly like the specification
+(`emitted_code_gates`). User types (`Validate<Type>` calls) stay tied by execution only.
 -/
 namespace GoaVerif.Props.C04
 open GoaVerif.Validation
@@ -181,5 +185,68 @@ theorem optional_collection_check_unguarded :
   decide +kernel
 
 end emitted
+
+/-! ### the assembly of the checks (`Model/ValCode.lean`, tie T3 `rtvalcode` ↔ `drv_valid compile`) -/
+section Assembly
+open GoaVerif.ValCode
+
+/-- **Every broken rule is reported.** For every attribute tree (objects only where the generator
+    works on pointer fields: `okCtx`), every well-typed value and every rule of the specification the
+    value breaks, the code emitted for an HTTP body type reports that rule — provided no attribute
+    carries both exclusive bounds (`noBothEx`, known finding). -/
+theorem emitted_code_complete (f : Nat) (a : Att) (v : Val) (y : Viol)
+    (hok : okCtx f true a = true) (ht : typed f a v = true) (hex : noBothEx f a = true)
+    (hy : y ∈ violations f a v) : y ∈ runL (compileBody f a) v :=
+  compile_complete f true true a v y hok ht hex hy
+
+/-- **A valid value passes.** The emitted code is silent on a well-typed value that breaks no rule —
+    provided no absent array/map field has a positive minimum length (`collOK`, known finding). -/
+theorem emitted_code_sound (f : Nat) (a : Att) (v : Val)
+    (hok : okCtx f true a = true) (ht : typed f a v = true) (hc : collOK f a v = true)
+    (hv : violations f a v = []) : runL (compileBody f a) v = [] :=
+  compile_sound f true true a v hok ht hc hv
+
+/-- **The emitted code gates exactly like the specification**: the validation code of a body type lets
+    a (decoded, hence well-typed) value through iff the value satisfies the design. -/
+theorem emitted_code_gates (f : Nat) (a : Att) (v : Val)
+    (hok : okCtx f true a = true) (ht : typed f a v = true) (hex : noBothEx f a = true)
+    (hc : collOK f a v = true) :
+    runL (compileBody f a) v = [] ↔ (handle f a v matches .called) := by
+  rw [called_iff_valid]
+  constructor
+  · intro h
+    cases hv : violations f a v with
+    | nil => rfl
+    | cons y ys =>
+      have := emitted_code_complete f a v y hok ht hex (by simp [hv])
+      simp [h] at this
+  · exact emitted_code_sound f a v hok ht hc
+
+/-- the two hypotheses are needed — the emitted code itself is wrong there (both are known findings,
+    reproduced on generated servers by `vlib/c04.py`): -/
+def bothEx : Att := .obj [("n", true, .prim (.number true none none) { exMin := some ⟨0, 1⟩, exMax := some ⟨10, 1⟩ })]
+theorem both_exclusive_bounds_second_unchecked :
+    violations 3 bothEx (.obj [("n", .num ⟨11, 1⟩)]) = [.invalidRange] ∧
+    runL (compileBody 3 bothEx) (.obj [("n", .num ⟨11, 1⟩)]) = [] := by decide
+
+def optList : Att := .obj [("tags", false, .arr { minLen := some 1 } (.prim .string {}))]
+theorem absent_optional_collection_rejected :
+    violations 3 optList (.obj []) = [] ∧ runL (compileBody 3 optList) (.obj []) = [.invalidLength] := by decide
+
+/-- non-vacuity: a nested attribute and values meeting every hypothesis, one valid and one not -/
+def asmAtt : Att :=
+  .obj [("id", true, .prim (.number true none none) { min := some ⟨1, 1⟩ }),
+        ("tags", false, .arr { maxLen := some 2 } (.prim .string { minLen := some 2, pattern := true })),
+        ("dims", true, .map {} (.prim .string { enumStrs := ["w", "h"], hasEnum := true }) (.prim (.number false none none) { exMin := some ⟨0, 1⟩ })),
+        ("owner", false, .obj [("name", true, .prim .string { maxLen := some 3 }), ("blob", false, .prim .bytes { minLen := some 1 })])]
+def asmGood : Val := .obj [("id", .num ⟨3, 1⟩), ("dims", .map [(.str "w" true true, .num ⟨1, 2⟩)]), ("owner", .obj [("name", .str "ab" true true)])]
+def asmBad : Val := .obj [("id", .num ⟨0, 1⟩), ("tags", .arr [.str "a" true false]), ("dims", .map [(.str "x" true true, .num ⟨0, 1⟩)]), ("owner", .obj [])]
+example : okCtx 5 true asmAtt = true ∧ noBothEx 5 asmAtt = true ∧ typed 5 asmAtt asmGood = true ∧ collOK 5 asmAtt asmGood = true ∧
+    typed 5 asmAtt asmBad = true ∧ collOK 5 asmAtt asmBad = true := by decide
+example : runL (compileBody 5 asmAtt) asmGood = [] ∧ violations 5 asmAtt asmGood = [] := by decide
+example : runL (compileBody 5 asmAtt) asmBad =
+    [.invalidRange, .invalidPattern, .invalidLength, .invalidEnumValue, .invalidRange, .missingField] := by decide
+
+end Assembly
 
 end GoaVerif.Props.C04
